@@ -25,7 +25,10 @@ import (
 type c18Case struct {
 	// Huge: the known-finding slice — a decoration value contains a number beyond the float64
 	// range (1e999), which encoding/json cannot decode into an `any`.
-	Huge      bool     `json:"huge_number,omitempty"`
+	Huge bool `json:"huge_number,omitempty"`
+	// BothDefs: second known-finding slice — an unreferenced entry is added under the OTHER
+	// spelling of the definitions keyword ($defs beside definitions), which Resolve refuses.
+	BothDefs  bool     `json:"both_defs,omitempty"`
 	Draft7    bool     `json:"draft7"`
 	Schema    *jv.V    `json:"schema"`
 	Decorated *jv.V    `json:"decorated"`
@@ -48,7 +51,24 @@ var goFieldNames = []string{"ID", "Schema", "Ref", "Defs", "Types", "Type", "Ite
 // caseVariant returns a spelling of kw that differs from it only in letter case.
 func caseVariant(t *rapid.T, kw string) string {
 	var out string
-	switch rapid.IntRange(0, 2).Draw(t, "casekind") {
+	switch rapid.IntRange(0, 3).Draw(t, "casekind") {
+	case 3:
+		// Unicode simple case folding makes U+017F (long s) an "s" and U+212A (Kelvin sign) a "k":
+		// encoding/json matches struct fields that way; for a keyword it is just another name
+		if strings.ContainsAny(kw, "sSkK") {
+			out = strings.NewReplacer("s", "\u017f", "S", "\u017f", "k", "\u212a", "K", "\u212a").Replace(kw)
+			if rapid.Bool().Draw(t, "foldone") {
+				// only the first foldable letter
+				i := strings.IndexAny(kw, "sSkK")
+				r := "\u017f"
+				if kw[i] == 'k' || kw[i] == 'K' {
+					r = "\u212a"
+				}
+				out = kw[:i] + r + kw[i+1:]
+			}
+		} else {
+			out = strings.ToUpper(kw)
+		}
 	case 0:
 		out = strings.ToUpper(kw)
 	case 1:
@@ -447,7 +467,29 @@ func propC18(rec *ev.Recorder) func(t *rapid.T) {
 			}
 			rec.Class("feature:number-beyond-float64")
 		}
+		if !c.Huge && rapid.IntRange(0, 24).Draw(t, "bothdefs") == 0 && c.Decorated.K == jv.Obj {
+			// known-finding slice (4% of the cases): the root gets an unreferenced entry under both
+			// spellings of the definitions keyword
+			for _, kw := range []string{"$defs", "definitions"} {
+				d := c.Decorated.Get(kw)
+				if d == nil || d.K != jv.Obj {
+					d = jv.ObjV()
+					c.Decorated.Set(kw, d)
+				}
+				if !d.Has("zz-unused-too") {
+					d.Set("zz-unused-too", jv.ObjV(jv.Member{K: "type", V: jv.StrV("string")}))
+				}
+			}
+			c.BothDefs = true
+			c.Added = append(c.Added, "$defs+definitions")
+			rec.Class("feature:both-definitions-keywords")
+		}
 		fl := checkC18(c, rec)
+		if fl != nil && c.BothDefs && knownOpen("defs-and-definitions-exclusive") && strings.Contains(fl.Msg, "both Defs and Definitions are set") {
+			rec.Known("defs-and-definitions-exclusive", "a schema object holding both $defs and definitions is refused by Resolve (and by Marshal), although unreferenced entries of either keyword are documented as non-asserting")
+			rec.Case()
+			return
+		}
 		if fl != nil {
 			if c.Huge && knownOpen("number-beyond-float64-refused") && strings.HasPrefix(fl.Msg, "Unmarshal rejects a document because of") && strings.Contains(c.Decorated.JSON(), "1e999") {
 				rec.Known("number-beyond-float64-refused", "a number beyond the float64 range (1e999) inside an unknown keyword or `examples` makes Unmarshal fail")
